@@ -162,6 +162,12 @@ func (e *Engine) checkAllRaw(s *Sys) *Violation {
 	}
 	// resources
 	for i, id := range s.ResIDs {
+		if !s.ResReg[i] {
+			if m.Res[i] != nil {
+				return e.v(s, "resource", "resource %d is in the model but its type was never registered", i)
+			}
+			continue
+		}
 		has := w.Resources().Has(id)
 		got := w.Resources().Get(id)
 		want := s.ResVals[i]
@@ -385,15 +391,18 @@ func (e *Engine) checkRegistry(s *Sys) *Violation {
 		}
 	}
 	rids := ecs.ResourceIDs(w)
-	if len(rids) != len(s.ResIDs) {
-		return e.v(s, "registry", "ResourceIDs has %d entries, %d registered", len(rids), len(s.ResIDs))
+	if len(rids) != len(s.resOrder) {
+		return e.v(s, "registry", "ResourceIDs has %d entries, %d registered", len(rids), len(s.resOrder))
 	}
-	for i, id := range rids {
-		if id != s.ResIDs[i] {
-			return e.v(s, "registry", "ResourceIDs[%d] differs from the ID handed out at registration", i)
+	for n, i := range s.resOrder {
+		if rids[n] != s.ResIDs[i] {
+			return e.v(s, "registry", "ResourceIDs[%d] differs from the ID handed out at registration", n)
 		}
-		if tp, ok := ecs.ResourceType(w, id); !ok || tp != ResType(i) {
-			return e.v(s, "registry", "ResourceType(%d) = %v", i, tp)
+		if tp, ok := ecs.ResourceType(w, rids[n]); !ok || tp != resTypeOf(i) {
+			return e.v(s, "registry", "ResourceType of resource %d = %v", i, tp)
+		}
+		if again := ecs.ResourceTypeID(w, resTypeOf(i)); again != rids[n] {
+			return e.v(s, "registry", "resource type %d got another ID on the second lookup", i)
 		}
 	}
 	return nil
